@@ -19,7 +19,7 @@ func writerRules(which ...string) []RuleDef {
 			Run: func(c *Ctx, r *Rep, tier string) {}},
 		"W4": {Name: "W4", What: "one emitter started once; the underlying writer is written only by it, and by Close after wg.Wait", Floor: 3,
 			Run: func(c *Ctx, r *Rep, tier string) { get(c).ruleW4(r, "W4") }},
-		"W5": {Name: "W5", What: "qwg.Done only after the block's write returned; errors latched before the compressor is released and before Done", Floor: 2,
+		"W5": {Name: "W5", What: "qwg.Done and the hand-back of the compressor only after the block's write returned; errors latched before the compressor is released and before Done", Floor: 2,
 			Run: func(c *Ctx, r *Rep, tier string) { get(c).ruleW5(r, "W5") }},
 		"W6": {Name: "W6", What: "close(queue) once under !closed after submitting the active block; EOF marker only after wg.Wait and only if err == nil", Floor: 2,
 			Run: func(c *Ctx, r *Rep, tier string) { get(c).ruleW6(r, "W6") }},
@@ -80,6 +80,8 @@ func init() {
 			RuleDef{Name: "CUR-SEEKOFF", What: "a failed underlying Seek leaves the recorded offset where the stream still is (added after a blind second seed round)", Floor: 1, Run: ruleSeekOff},
 			RuleDef{Name: "BASE-DROPS-DATA", What: "after a failed read the recycled block does not look like a valid block of the new base", Floor: 2, Run: ruleBaseDropsData},
 			RuleDef{Name: "PIPE-STALL", What: "the read-ahead loop examines the decompressor's error before deriving the next offset (a failed read-ahead must not park the worker while the reader waits)", Floor: 1, Run: rulePipeStall},
+			RuleDef{Name: "BASE-ONCE", What: "Block.setBase is invoked only in nextBlockAt, with the offset the member is read from: a failed read-ahead result stays attributable to the block the reader waits for (added after fifth-round seed C09-f)", Floor: 1, Run: ruleBaseOnce},
+			RuleDef{Name: "STICKY-ERR", What: "Reader.Read/ReadByte return the recorded error at once and do not touch it (past the end the worker is parked: carrying on hangs; added after fifth-round seed C02-f)", Floor: 2, Run: ruleReaderStickyErr},
 			RuleDef{Name: "POOL-BARE", What: "every decompressor sent to the read-ahead pool is new or had its block taken by wait(): otherwise the end of a stream that cannot seek is a panic instead of io.EOF (shared with C01)", Floor: 4, Run: rulePoolBare},
 			RuleDef{Name: "LOCK-2", What: "the writer's error latch and the reader's cache field are accessed under their mutex (Close after wg.Wait exempt, structurally re-checked)", Floor: 8,
 				Run: func(c *Ctx, r *Rep, tier string) {
